@@ -194,8 +194,9 @@ func (g *projGen) method(ci, mi int, prefixParams []string, types []pType, file 
 			m.Annots = append(m.Annots, pAnnot{Name: "Response", Value: "204", Desc: "done"})
 		}
 	}
-	for k := r.Intn(3); k > 0; k-- {
-		m.Annots = append(m.Annots, pAnnot{Name: "ErrorResponse", Value: rng.Pick(r, []string{"400", "404", "500"}), Desc: "failure"})
+	// up to four, so that a repeated code (a warning only) is followed by further codes now and then
+	for k := r.Intn(5); k > 0; k-- {
+		m.Annots = append(m.Annots, pAnnot{Name: "ErrorResponse", Value: rng.Pick(r, []string{"400", "404", "409", "500"}), Desc: "failure"})
 	}
 	return m
 }
@@ -219,7 +220,8 @@ func (g *projGen) perturb(m *pMethod, structNames []string) string {
 			methodIdx = i
 		}
 	}
-	kinds := []string{"add-unbound-param", "add-url-param", "results-none", "results-three", "results-nonerror", "verb-invalid", "verb-unsupported", "unknown-annotation", "bad-status"}
+	kinds := []string{"add-unbound-param", "add-url-param", "results-none", "results-three", "results-nonerror", "verb-invalid", "verb-unsupported", "unknown-annotation", "bad-status",
+		"verb-case", "dup-path-alias", "swap-path-alias"}
 	if len(bindIdx) > 0 {
 		kinds = append(kinds, "drop-annot", "dup-annot", "rename-annot-value", "retype-struct", "retype-slice", "bad-alias", "annot-no-value")
 	}
@@ -314,6 +316,27 @@ func (g *projGen) perturb(m *pMethod, structNames []string) string {
 		if methodIdx >= 0 {
 			m.Annots[methodIdx].Value = "OPTIONS"
 		}
+	case "verb-case":
+		// only the exact upper-case spellings are verbs
+		if methodIdx >= 0 {
+			m.Annots[methodIdx].Value = rng.Pick(r, []string{"get", "Post", "pUT", "delete", "Patch", "options"})
+		}
+	case "dup-path-alias":
+		// two parameters read from ONE url variable
+		if routeIdx < 0 {
+			return "none"
+		}
+		m.Annots[routeIdx].Value += "/{dup}"
+		m.Params = append(m.Params, pParam{Name: "da", Type: "string"}, pParam{Name: "db", Type: "string"})
+		m.Annots = append(m.Annots, pAnnot{Name: "Path", Value: "da", Props: map[string]any{"name": "dup"}}, pAnnot{Name: "Path", Value: "db", Props: map[string]any{"name": "dup"}})
+	case "swap-path-alias":
+		// a url variable spelled like ANOTHER parameter's Go name: perfectly valid
+		if routeIdx < 0 {
+			return "none"
+		}
+		m.Annots[routeIdx].Value += "/{sx}/{sa}"
+		m.Params = append(m.Params, pParam{Name: "sa", Type: "string"}, pParam{Name: "sb", Type: "string"})
+		m.Annots = append(m.Annots, pAnnot{Name: "Path", Value: "sa", Props: map[string]any{"name": "sx"}}, pAnnot{Name: "Path", Value: "sb", Props: map[string]any{"name": "sa"}})
 	case "unknown-annotation":
 		m.Annots = append(m.Annots, pAnnot{Name: "Foo", Value: "bar"})
 	case "bad-status":
@@ -455,6 +478,13 @@ func genProject(r *rng.R, nPerturb int) (pProject, []string) {
 			c.Annots = append(c.Annots, pAnnot{Name: "Description", Desc: "Controller é"})
 		}
 		c.Annots = append(c.Annots, g.security()...)
+		if ci > 0 && r.Chance(1, 7) {
+			// a controller without any doc comment, declared after a documented one: it has no tag, no prefix and
+			// no security of its own (the configured default applies) - whatever its neighbours say
+			c.Free, c.Annots = nil, nil
+			g.prefixTrailing = false
+			prefixParams = []string{}
+		}
 		nm := 1 + r.Intn(4)
 		for mi := 0; mi < nm; mi++ {
 			file := c.File
